@@ -228,6 +228,9 @@ class Store:
         # whether the emit flag was set explicitly (store_schema,
         # set_emit_value): schemas applied later do not change it then
         self.emit_pinned = False
+        # the branch-level emit flag an agents store was given while it
+        # had no children: the children that arrive later get it
+        self.children_emit = None
         self.sources = {}
         self.leaf = False
         self.serializer = None
@@ -677,6 +680,8 @@ class Store:
             # flag is for the leaves below, it does not make the node a
             # variable.
             late_emit = (config.pop('_emit'), dict(config))
+            if self.subschema or self.glob_declared:
+                self.children_emit = late_emit[0]
 
         if self.schema_keys & set(config.keys()):
             # We are at a leaf node, so apply its config.
@@ -1165,8 +1170,16 @@ class Store:
                 child._apply_emit_where_unsaid(
                     emit,
                     config.get(key, {}) if isinstance(config, dict) else {})
-        elif not self.emit_pinned:
+        elif not self.emit_pinned and not isinstance(self.value, Process):
+            # (variables: the processes of a compartment are not data)
             self.emit = emit
+
+    def _flag_new_child(self, child):
+        """Give a child that arrives later the branch-level emit flag
+        this store was given while it had no children."""
+        if self.children_emit is not None:
+            child._apply_emit_where_unsaid(
+                self.children_emit, self.subschema)
 
     def _pin_emit(self, pinned=True):
         """Mark the emit flags of all leaves below as set explicitly
@@ -1277,6 +1290,9 @@ class Store:
                         # the variables the state does not spell out
                         # start from their declared defaults
                         self.inner[child].apply_defaults()
+                        self.inner[child].set_value(inner_value)
+                        self._flag_new_child(self.inner[child])
+                        continue
                     else:
                         pass
                         # TODO: continue to ignore extra keys?
@@ -1306,6 +1322,7 @@ class Store:
                         # (what the value does not spell out starts
                         # from the declared defaults)
                         self.inner[child].apply_defaults()
+                        self._flag_new_child(self.inner[child])
                         continue
                     self._establish_path((child,), {})
 
@@ -1990,6 +2007,8 @@ class Store:
                     subtopology,
                     source=self.path_for() + ('*',),
                     own_node=True)
+            if len(path) == 1:
+                self._flag_new_child(inner)
             inner._apply_subschema_path(path[1:])
 
     def _apply_subschema(self, subschema=None, subtopology=None):
